@@ -16,7 +16,7 @@ EXCLUDED = ['stdnum.isan', 'stdnum.meid', 'stdnum.us.ssn', 'stdnum.us.itin', 'st
 RULE = (
     'per module exposing compact() except the seven named in the property (isan, meid, us.ssn/itin/ein/atin/tin): '
     'x ranges over corpus valid numbers (as written and in compact form), further valid numbers (one per row of the '
-    'module-level tables, self-similar numbers, length-/letter-extremal numbers), near-misses (common.mutations, single '
+    'module-level tables, self-similar numbers, length-/letter-extremal numbers, numbers whose body begins with a prefix the module strips or carries), near-misses (common.mutations, single '
     'digit changes), and garbage (corpus invalid strings, random strings); y = x decorated with candidate '
     'characters that compact() may remove or fold (every ASCII separator and whitespace character of '
     'common.SEPARATORS/WHITESPACE at every position, every key of stdnum.util._char_map inserted / substituted '
@@ -178,11 +178,12 @@ def _worker(task):
             cands += [('table', y) for _lab, y in G.table_variants(mod, v, rng, 10 * quota)]
             cands += [('self-similar', y) for _lab, y in G.self_similar(v, rng, 10 * quota)]
         cands += [('extremal', y) for y in common.extremal_numbers(modname)]
+        cands += [('own-prefix', y) for _lab, y in G.own_prefix_numbers(mod, corp['valid'], rng, 3000 if tier == 'quick' else 20000)]
         taken = {}
         for gen, y in cands:
             if taken.get(gen, 0) >= quota:
                 continue
-            if G.call(mod, 'validate', mod.validate, (y,), {})[0] == 'ok':
+            if gen == 'own-prefix' or G.call(mod, 'validate', mod.validate, (y,), {})[0] == 'ok':
                 taken[gen] = taken.get(gen, 0) + 1
                 explore(gen, y, 0, opts[:1])
     for x in invalid[:P['garbage']]:
